@@ -2,6 +2,7 @@ package props
 
 import (
 	"go/token"
+	"sort"
 	"strings"
 
 	"golang.org/x/tools/go/ssa"
@@ -316,6 +317,22 @@ func c15R4(p *engine.Prog, r *engine.Report) {
 			r.Bad("C15-R4", key, p.Pos(run.Pos()), "min(usedGas, limit) not found")
 			continue
 		}
+		// both sides of the clamp are in the same unit: a unit conversion (costs.WasmGasToGas /
+		// GasToWasmGas) is applied to both operands or to neither
+		conv := func(v ssa.Value) string {
+			var names []string
+			for y := range engine.BackSlice(v, engine.DefaultSlice) {
+				if cc, ok := y.(*ssa.Call); ok {
+					if o := engine.CalleeObj(&cc.Call); o != nil && (o.Name() == "WasmGasToGas" || o.Name() == "GasToWasmGas") {
+						names = append(names, o.Name())
+					}
+				}
+			}
+			sort.Strings(names)
+			return strings.Join(dedup(names), ",")
+		}
+		ca, cb := conv(clamp.Call.Args[0]), conv(clamp.Call.Args[1])
+		r.Check(ca == cb, "C15-R4", x.fn+"|used gas and limit are clamped in the same unit", p.InstrPos(clamp), "conversions: used {"+ca+"}, limit {"+cb+"}", "the clamp compares a value converted by {"+ca+"} with a limit converted by {"+cb+"}: gas in one unit is capped by a limit in another (100x), the receipt reports — and the sender is charged for — more gas than MaxFee buys")
 		// the only way around the clamp: limit < 0. With the clamp block and the (limit < 0) edges
 		// of the exact guards cut, the store of receipt.GasUsed must be unreachable.
 		cutE := map[engine.Edge]bool{}
